@@ -3,6 +3,7 @@ mod chooser;
 mod cupsign;
 mod docgen;
 mod exec;
+mod hist;
 mod explore;
 mod props;
 mod runner;
